@@ -8,7 +8,7 @@
 From Coq Require Import NArith ZArith List Bool String.
 Import ListNotations.
 From Molli Require Import Model.UKV Model.MiniPy Model.Backend Model.MiniPyB Gen.UKVCode Gen.BackendCode
-  Proofs.UKVBase Proofs.UKVCode Proofs.BackendCode.
+  Proofs.UKVBase Proofs.UKVCode Proofs.BackendCode Proofs.BackendSession.
 Local Open Scope string_scope.
 Local Open Scope N_scope.
 
@@ -85,14 +85,82 @@ Print Assumptions C04_code_end_session.
 Example C04_code_end_progs : end_read_prog = BUkvCall close_prog [] /\ end_write_prog = BUkvCall close_prog [].
 Proof. split; reflexivity. Qed.
 
+(* ---------- the session context managers themselves (Proofs/BackendSession.v) ----------
+   reading() / writing() are generator functions; the translator splits each at its single `yield self` into the part that runs
+   on entry and the part that runs when the with-block ends.  For EVERY state: the entry part is b_begin_r / b_begin_w of
+   Model/Backend.v (lock taken, file (re)opened and mapped, _state set, listing refreshed -- or, for a read-only backend asked
+   to write, UnsupportedOperation with nothing changed and no lock taken); the exit part is b_end_r / b_end_w (flush, close,
+   _state idle) and the lock is released on EVERY path, also when the final flush of a writing session raises. *)
+Theorem C04_code_reading_enter : forall fuel s f b hh1 hh2 bb0 rest,
+  (List.length f < fuel)%nat -> BRep s f b ->
+  f = (mk_header hh1 hh2 bb0 ++ rest)%list -> List.length hh1 = 16%nat -> len hh2 < 65536 -> len bb0 < 4294967296 ->
+  (has_uk b = false -> uk b = h0) -> (forall k, last (uk b) = Some k -> lookup (toc (uk b)) k <> None) ->
+  bheld s = None ->
+  let '(s', o) := bexec fuel reading_enter_prog s in
+  let '(f', b', r) := b_begin_r f b in
+  o = BONormal /\ r = BOk /\ BRep s' f' b' /\ bheld s' = Some false.
+Proof. exact reading_enter_code. Qed.
+Print Assumptions C04_code_reading_enter.
+
+Theorem C04_code_writing_enter : forall fuel s f b hh1 hh2 bb0 rest,
+  (List.length f < fuel)%nat -> BRep s f b ->
+  f = (mk_header hh1 hh2 bb0 ++ rest)%list -> List.length hh1 = 16%nat -> len hh2 < 65536 -> len bb0 < 4294967296 ->
+  (has_uk b = false -> uk b = h0) -> (forall k, last (uk b) = Some k -> lookup (toc (uk b)) k <> None) ->
+  bheld s = None ->
+  let '(s', o) := bexec fuel writing_enter_prog s in
+  let '(f', b', r) := b_begin_w f b in
+  o = bout_of_res r /\ BRep s' f' b' /\ bheld s' = (if ro b then None else Some true).
+Proof. exact writing_enter_code. Qed.
+Print Assumptions C04_code_writing_enter.
+
+Theorem C04_code_reading_exit : forall fuel s f b,
+  BRep s f b -> has_uk b = true -> has_mode s -> bheld s = Some false ->
+  let '(s', o) := bexec fuel reading_exit_prog s in
+  let '(f', b', r) := b_end_r f b in
+  o = BONormal /\ r = BOk /\ f' = f /\ BRep s' f b' /\ bheld s' = None.
+Proof. exact reading_exit_code. Qed.
+Print Assumptions C04_code_reading_exit.
+
+Theorem C04_code_writing_exit : forall fuel s f b,
+  (List.length (queue b) < fuel)%nat -> BRep s f b -> has_uk b = true -> has_mode s -> bheld s = Some true ->
+  let '(s', o) := bexec fuel writing_exit_prog s in
+  let '(f', b', r) := b_end_w f b in
+  o = bout_of_res r /\ BRep s' f' b' /\ bheld s' = None.
+Proof. exact writing_exit_code. Qed.
+Print Assumptions C04_code_writing_exit.
+
+(* put / get / flush and everything they call leave the UKVFile's mode attribute and the lock alone (decided on the
+   translated terms, so re-established from the source on every run) *)
+Example C04_code_frames :
+  bsets_attr "mode" flush_prog = false /\ bsets_attr "mode" bput_prog = false /\ bsets_attr "mode" bget_prog = false /\
+  no_lock flush_prog = true /\ no_lock bput_prog = true /\ no_lock bget_prog = true /\
+  no_lock begin_read_prog = true /\ no_lock begin_write_prog = true /\ no_lock end_read_prog = true /\ no_lock end_write_prog = true.
+Proof. repeat split; reflexivity. Qed.
+
 (* Non-vacuity: the translated layers RUN together on a concrete state: a buffered put, then a get that flushes it. *)
 Definition ex_inner : state :=
   mkst (repeat 0 32) (mks 0 true false)
        (env_of [("_toc", VToc []); ("_last", VNone); ("_eof", VInt 32); ("_closed", VBool false); ("mode", VStr "a")]) empty_env.
-Definition ex_b : bstate := mkbs ex_inner true [] [] 0%Z 1000%Z false SWriting (fun x => if String.eqb x "key" then Some [7] else if String.eqb x "value" then Some [1; 2] else None).
+Definition ex_b : bstate := mkbs ex_inner true [] [] 0%Z 1000%Z false SWriting (Some true) (fun x => if String.eqb x "key" then Some [7] else if String.eqb x "value" then Some [1; 2] else None).
 Example C02_code_backend_runs :
   let '(s1, o1) := bexec 10 bput_prog ex_b in
   o1 = BONormal /\ bq s1 = [([7], [1; 2])] /\ file (inner s1) = repeat 0 32 /\
   let '(s2, o2) := bexec 10 bget_prog s1 in
   o2 = BOReturn (Some [1; 2]) /\ bq s2 = [] /\ file (inner s2) = (repeat 0 32 ++ [1; 0; 0; 0; 2; 7; 1; 2])%list.
+Proof. vm_compute. repeat split; reflexivity. Qed.
+
+(* ... and a whole writing session on it: enter (reopen in mode a), a buffered put, exit (flush, close, idle, lock released) *)
+Definition ex_closed : state :=
+  mkst (mk_header (repeat 77 16) [1; 2] [9]) (mks 0 false true)
+       (env_of [("_toc", VToc []); ("_last", VNone); ("_eof", VNone); ("_closed", VBool true); ("mode", VStr "a")]) empty_env.
+Definition ex_bs : bstate := mkbs ex_closed true [] [] 0%Z 1000%Z false SIdle None
+  (fun x => if String.eqb x "key" then Some [7] else if String.eqb x "value" then Some [1; 2] else None).
+Example C04_code_session_runs :
+  let '(s1, o1) := bexec 100 writing_enter_prog ex_bs in
+  o1 = BONormal /\ bsess s1 = SWriting /\ bheld s1 = Some true /\
+  let '(s2, o2) := bexec 100 bput_prog s1 in
+  o2 = BONormal /\ bq s2 = [([7], [1; 2])] /\
+  let '(s3, o3) := bexec 100 writing_exit_prog s2 in
+  o3 = BONormal /\ bq s3 = [] /\ bsess s3 = SIdle /\ bheld s3 = None /\
+  file (inner s3) = (mk_header (repeat 77 16) [1; 2] [9] ++ [1; 0; 0; 0; 2; 7; 1; 2])%list.
 Proof. vm_compute. repeat split; reflexivity. Qed.
